@@ -134,12 +134,43 @@ impl tower::Service<Request<Bytes>> for NodeService {
                     resp.headers_mut().insert(k.clone(), v.chars().rev().collect());
                 }
             }
+            // digest of the header map the handler received (sorted "k=v\n" lines): the caller knows what it sent
+            {
+                let mut kv: Vec<String> = h.iter().map(|(k, v)| format!("{k}={v}\n")).collect();
+                kv.sort();
+                resp.headers_mut().insert("hdr-digest".into(), digest(kv.concat().as_bytes()));
+            }
             resp.headers_mut().insert("srv".into(), idx.to_string());
             resp.headers_mut().insert("id".into(), id);
             resp.headers_mut().insert("seen-from".into(), from);
             resp.headers_mut().insert("origin".into(), origin.into());
             guard.1 = true;
             Ok(resp)
+        })
+    }
+}
+
+/// Adapter: a service failing with an rpc Status becomes an infallible one answering with that status.
+#[derive(Clone)]
+struct StatusToResponse<S>(S);
+impl<S> tower::Service<Request<Bytes>> for StatusToResponse<S>
+where
+    S: tower::Service<Request<Bytes>, Response = Response<Bytes>, Error = anemo::rpc::Status>,
+    S::Future: Send + 'static,
+{
+    type Response = Response<Bytes>;
+    type Error = Infallible;
+    type Future = futures::future::BoxFuture<'static, Result<Response<Bytes>, Infallible>>;
+    fn poll_ready(&mut self, cx: &mut std::task::Context<'_>) -> std::task::Poll<Result<(), Infallible>> {
+        self.0.poll_ready(cx).map(|_| Ok(()))
+    }
+    fn call(&mut self, req: Request<Bytes>) -> Self::Future {
+        let fut = self.0.call(req);
+        Box::pin(async move {
+            Ok(match fut.await {
+                Ok(resp) => resp,
+                Err(st) => anemo::types::response::IntoResponse::into_response(st),
+            })
         })
     }
 }
@@ -238,6 +269,18 @@ impl World {
         if let Some(k) = a.get("gate").and_then(|v| v.parse::<usize>().ok()) {
             let gated = tower::limit::ConcurrencyLimit::new(svc, k);
             return self.finish_start(idx, b.start(gated), stats, key);
+        }
+        // inflight=<k>[b]: the service sits behind anemo-tower's per-peer in-flight limit (ReturnError, or Block with "b")
+        if let Some(v) = a.get("inflight") {
+            use tower::Layer as _;
+            let (k, mode) = match v.strip_suffix('b') {
+                Some(k) => (k, anemo_tower::inflight_limit::WaitMode::Block),
+                None => (*v, anemo_tower::inflight_limit::WaitMode::ReturnError),
+            };
+            let inner = tower::ServiceBuilder::new().map_err(|e: Infallible| -> anemo::rpc::Status { match e {} }).service(svc);
+            let limited = anemo_tower::inflight_limit::InflightLimitLayer::new(k.parse().unwrap(), mode).layer(inner);
+            // the layer's error type is anemo's Status: turn it into the response it stands for
+            return self.finish_start(idx, b.start(StatusToResponse(limited)), stats, key);
         }
         let started = match a.get("routes") {
             Some(list) => {
@@ -341,9 +384,14 @@ async fn net_cmd(
             let j: usize = t[2].parse().unwrap();
             let a = kv(&t[3..]);
             let port = a.get("port").and_then(|p| p.parse().ok()).unwrap_or_else(|| ports[&j]);
+            // ip=<x>: the node is dialed under its other address 127.0.0.<x> (every fabric node answers under all of them)
+            let target = match a.get("ip").and_then(|x| x.parse::<u8>().ok()) {
+                Some(x) => std::net::SocketAddr::new(std::net::IpAddr::V4(std::net::Ipv4Addr::new(127, 0, 0, x)), port),
+                None => fabric::addr(port),
+            };
             let r = match a.get("pin") {
-                Some(k) => net.connect_with_peer_id(fabric::addr(port), pids[&k.parse::<usize>().unwrap()]).await,
-                None => net.connect(fabric::addr(port)).await,
+                Some(k) => net.connect_with_peer_id(target, pids[&k.parse::<usize>().unwrap()]).await,
+                None => net.connect(target).await,
             };
             match r {
                 Ok(p) => {
@@ -412,7 +460,7 @@ async fn net_cmd(
                     let from = resp.peer_id().map(|p| name(p)).unwrap_or("?".into());
                     let h = resp.headers();
                     format!(
-                        "ok st={} body={} sent={} id={} srv={} from={} seen={} pad={} origin={} t={}",
+                        "ok st={} body={} sent={} id={} srv={} from={} seen={} pad={} origin={} hd={} t={}",
                         resp.status().to_u16(),
                         digest(resp.body()),
                         sent,
@@ -422,6 +470,7 @@ async fn net_cmd(
                         h.get("seen-from").cloned().unwrap_or_default(),
                         h.get("pad").map(|p| p.len()).unwrap_or(0),
                         h.get("origin").cloned().unwrap_or_default(),
+                        h.get("hdr-digest").cloned().unwrap_or_default(),
                         el()
                     )
                 }
